@@ -1,6 +1,6 @@
 //! Shared check engine: sharded proptest runners, bounded enumerators, evidence,
 //! known-findings handling, replay files.
-use proptest::strategy::{BoxedStrategy, Strategy};
+use proptest::strategy::BoxedStrategy;
 use proptest::test_runner::{Config, RngAlgorithm, TestCaseError, TestError, TestRng, TestRunner};
 use serde::{de::DeserializeOwned, Deserialize, Serialize};
 use serde_json::{json, Value};
